@@ -195,6 +195,14 @@ func runC07(c *Ctx) {
 				eval("truncated", req[:n], nil, nil)
 			}
 			eval("extended", append(append([]byte{}, req...), 0), nil, nil)
+			// bytes inserted at every field boundary (in particular between ciphertext and signature) and removed there
+			for _, at := range []int{2, 51, 83, 85, 117, len(req) - 96, len(req) - 48} {
+				for _, junk := range [][]byte{{0}, r.Bytes(1 + r.IntN(8)), r.Bytes(96)} {
+					m := append(append(append([]byte{}, req[:at]...), junk...), req[at:]...)
+					eval("inserted", m, nil, nil)
+				}
+				eval("removed", append(append([]byte{}, req[:at-1]...), req[at:]...), nil, nil)
+			}
 			// the (r, N-s) twin is a valid signature over the same request: served, and that is fine
 			eval("sig:twin", sigTwin(req), nil, req)
 			// unregistered origins and near misses
